@@ -112,7 +112,7 @@ func CheckC03(r *core.Run) {
 		}
 		r.AddSample(map[string]interface{}{"cfg": traces[0].Meta, "first_events": traces[0].Events[1:n]})
 	}
-	judgeTx(r, "TxTrace.cfg", traces, false)
+	judgeTx(r, "TxTrace_C03.cfg", traces, false)
 }
 
 func sampleTrace(r *core.Run, traces []*core.Trace) {
@@ -152,6 +152,7 @@ func CheckC04(r *core.Run) {
 		c.BigAlloc = 6
 		c.AbortPct = 35
 		c.NoIO = true
+		c.WritePct = 50
 		if i%3 == 0 {
 			c.Overflow = true
 			c.MaxPages = 64
@@ -160,7 +161,7 @@ func CheckC04(r *core.Run) {
 	})
 	traces := histories(r, cfgs)
 	sampleTrace(r, traces)
-	judgeTx(r, "TxTraceMem.cfg", traces, false)
+	judgeTx(r, "TxTrace_C04.cfg", traces, false)
 }
 
 // CheckC07: abort leaves no trace.
@@ -171,6 +172,13 @@ func CheckC07(r *core.Run) {
 		c.AbortPct = 65
 		c.ReopenPct = 15
 		c.BigAlloc = 5
+		c.WritePct = 50
+		if i%2 == 0 {
+			c.FailCommitPct = 30
+		}
+		if i%6 == 5 {
+			c.MaxPages, c.KeepSmall = 64, 80 // commits fail because the file is full
+		}
 		if i%3 == 1 {
 			c.Overflow = true
 			c.MaxPages = 64
@@ -179,7 +187,7 @@ func CheckC07(r *core.Run) {
 	})
 	traces := histories(r, cfgs)
 	sampleTrace(r, traces)
-	judgeTx(r, "TxTrace.cfg", traces, false)
+	judgeTx(r, "TxTrace_C07.cfg", traces, false)
 }
 
 // CheckC11: space conservation, size limit, stats.
@@ -196,10 +204,13 @@ func CheckC11(r *core.Run) {
 		c.NoIO = true
 		c.ReadAll = false
 		c.Prealloc = i%4 == 1
+		if i%3 == 2 {
+			c.MaxExtra = uint64(c.PageSize) / 2 // max size is not a multiple of the page size
+		}
 	})
 	traces := histories(r, cfgs)
 	sampleTrace(r, traces)
-	judgeTx(r, "TxTraceMem.cfg", traces, false)
+	judgeTx(r, "TxTrace_C11.cfg", traces, false)
 }
 
 // CheckC10: close and reopen is lossless.
@@ -212,7 +223,7 @@ func CheckC10(r *core.Run) {
 	})
 	traces := histories(r, cfgs)
 	sampleTrace(r, traces)
-	judgeTx(r, "TxTrace.cfg", traces, false)
+	judgeTx(r, "TxTrace_C10.cfg", traces, false)
 }
 
 // CheckC01: crash atomicity.
@@ -224,5 +235,5 @@ func CheckC01(r *core.Run) {
 	})
 	traces := histories(r, cfgs)
 	sampleTrace(r, traces)
-	judgeTx(r, "TxTrace.cfg", traces, false)
+	judgeTx(r, "TxTrace_C01.cfg", traces, false)
 }
